@@ -16,7 +16,7 @@ Fa = ('num', 0)
 
 def _conds(ctx):
     cs = [T, Fa]
-    if ctx[3] is not None:
+    if ctx[3] is not None and not ctx[5]:
         cs.append(('bin', '==', ('var', ctx[3]), ('num', 1)))
     return cs
 
@@ -52,6 +52,8 @@ def stmts(n, ctx):
         for f in callables:
             out.append(('callst', f, (), False))
             out.append(('callst', f, (), True))
+        if ext:
+            out.append(('callst', 'f', (), False))
         return tuple(out)
     if depth >= 4:
         return ()
@@ -89,6 +91,14 @@ def stmts(n, ctx):
             out.append(('repeat', ('range', var, ('num', a), ('num', bnd)), b))
     for b in blocks(body_n, lsub):
         out.append(('repeat', ('while', Fa), b))
+    if ext:
+        for b in blocks(body_n, lsub):
+            out.append(('repeat', ('all', 'l%d' % depth, None), b))
+            out.append(('repeat', ('forever',), b))
+        if not in_routine:
+            rctx = (False, True, callables, None, depth + 1, ext)
+            for b in blocks(body_n, rctx):
+                out.append(('define', 'f', (), b))
     if body_n >= 2:
         w = 'w%d' % depth
         for b in blocks(body_n - 1, lsub):
@@ -181,3 +191,45 @@ def _calls(block):
         if s[0] == 'WHILE2' and _calls(s[2]):
             return True
     return False
+
+
+def _walk(block, ev):
+    for s in block:
+        k = s[0]
+        if k == 'define':
+            ev.append('D')
+            _walk(s[3], ev)
+            ev.append('E')
+        elif k == 'callst':
+            ev.append('c')
+        elif k == 'if':
+            for _, b in s[1]:
+                _walk(b, ev)
+            if s[2] is not None:
+                _walk(s[2], ev)
+        elif k == 'repeat' or k == 'WHILE2':
+            _walk(s[2], ev)
+
+
+def extended_programs(max_nodes):
+    """Control skeletons with a routine definition in *every* statement position
+    the grammar has (inside if and repeat bodies too), every loop kind (incl.
+    light iteration and `repeat` forever) around break, return at every depth.
+    Valid = at most one definition, every call textually after its end."""
+    from . import render
+    top = (False, False, (), None, 0, True)
+    for n in range(1, max_nodes + 1):
+        for b in blocks(n, top):
+            ev = []
+            _walk(b, ev)
+            if ev.count('D') > 1:
+                continue
+            if 'c' in ev and ('E' not in ev or ev.index('c') < ev.index('E')):
+                continue
+            if 'D' in ev and 'c' not in ev:
+                continue
+            prog = _expand_block(b, [0])
+            toks = render.program_tokens(prog)
+            if any(t == 'return' and toks[i + 1:i + 2] == ['['] for i, t in enumerate(toks)):
+                continue
+            yield n, prog
